@@ -72,6 +72,27 @@ func execBrd(o *Out, id, line string) {
 		o.Emit(id, line, fmt.Sprintf("btr id=%s word=%s t=%d", id, hx(word), t), hx(got), kv["word"]+"/"+kv["t"])
 		return
 	}
+	if kv["cap"] != "" {
+		// the excluded point of the size cap of C02_refines_spec (probe_cap.go): 2^24+1 insert-and-copy
+		// commands in a meta-block with one block type; the 58.7 MB input is generated on the fly
+		var dn, ln int64
+		var derr, lerr error
+		if !withWatchdog(timeSec(120), func() {
+			dn, derr = capRun(1, 1<<24, 0, false)
+			ln, lerr = capRun(1, 1<<24, 0, true)
+		}) {
+			o.Violate("C08", "the single-type block count probe did not finish within 120s", "cap-probe-hang", line)
+			return
+		}
+		o.Count("cap-probe")
+		o.Emit(id, line, "", "", "cap")
+		if derr == nil && lerr != nil {
+			o.Violate("C02", fmt.Sprintf("a meta-block with one insert-and-copy block type and 2^24+1 commands (58,767,642 bytes, recipe probe_cap.go): brotli.Reader succeeds with %d bytes, libbrotlidec does not report a complete stream (%d bytes, %v): the implicit block count 16777216 of a single-type category is never enforced (typeLen = -1)", dn, ln, lerr), "single-type-block-count-exhausted", line)
+		} else if (derr == nil) != (lerr == nil) || dn != ln && derr == nil {
+			o.Violate("C02", fmt.Sprintf("single-type block count probe: dsnet %d bytes err=%v, libbrotlidec %d bytes err=%v", dn, derr, ln, lerr), "cap-probe-other", line)
+		}
+		return
+	}
 	in := unhx(kv["in"])
 	var out []byte
 	var err error
@@ -360,13 +381,15 @@ func genBrd(r *Rand, tier string, emit func(string)) {
 		}
 		e(b)
 	}
+	// the excluded point of the size cap of C02_refines_spec, on the real code (one scenario, ~7 s)
+	emit("brd cap=single-type-block-count")
 	_ = strconv.Itoa
 }
 
 func init() {
 	register(&Family{
 		Name: "brd",
-		Rule: "Brotli inputs: every string of <= 1 byte and a stride (quick) or all (thorough) of the 2-byte strings; libbrotlienc output at qualities 0-11 for random, run-heavy, low-entropy and English-like (static-dictionary) data up to 250 KB and the repository's testdata files; one-command streams that emit a static-dictionary word under each of the 121 transforms for every word length (words with bytes >= 0xc0 preferred); streams from an independent synthesiser (every WBITS/NPOSTFIX/NDIRECT, simple prefix codes incl. one-symbol codes, arbitrary ring-buffer distance codes incl. explicit codes for a repeated distance, static-dictionary references for random (length, word, transform), several meta-blocks with different codes, uncompressed and metadata meta-blocks, MLEN off by one); bit flips, byte overwrites, truncations and extensions of all of those. Each input goes through dsnet brotli.Reader and libbrotlidec; accepted streams are re-read through ReadByte-only / bufio16 / bytes.Reader sources with a trailer and with Read sizes {1}, {0,0,1,0,7}, {3,100000}. Every input is also decoded by the Lean specification of RFC 7932 (verdict, output length and hash; reject class on cuts of valid streams), and the 121 dictionary transforms are compared with the Lean transform table on sampled words of every length. Non-trivial = produced output or accepted",
+		Rule: "Brotli inputs: every string of <= 1 byte and a stride (quick) or all (thorough) of the 2-byte strings; libbrotlienc output at qualities 0-11 for random, run-heavy, low-entropy and English-like (static-dictionary) data up to 250 KB and the repository's testdata files; one-command streams that emit a static-dictionary word under each of the 121 transforms for every word length (words with bytes >= 0xc0 preferred); streams from an independent synthesiser (every WBITS/NPOSTFIX/NDIRECT, simple prefix codes incl. one-symbol codes, arbitrary ring-buffer distance codes incl. explicit codes for a repeated distance, static-dictionary references for random (length, word, transform), several meta-blocks with different codes, uncompressed and metadata meta-blocks, MLEN off by one); bit flips, byte overwrites, truncations and extensions of all of those. Each input goes through dsnet brotli.Reader and libbrotlidec; accepted streams are re-read through ReadByte-only / bufio16 / bytes.Reader sources with a trailer and with Read sizes {1}, {0,0,1,0,7}, {3,100000}. Every input is also decoded by the Lean specification of RFC 7932 (verdict, output length and hash; reject class on cuts of valid streams), and the 121 dictionary transforms are compared with the Lean transform table on sampled words of every length. One scenario (cap=...) runs the recipe of probe_cap.go: a meta-block with one insert-and-copy block type and 2^24+1 commands, generated on the fly, through brotli.Reader and libbrotlidec (not through the Lean driver). Non-trivial = produced output or accepted",
 		Gen:  genBrd,
 		Exec: execBrd,
 	})
